@@ -30,6 +30,9 @@ def decode_rules(ctx, prog):
             var = strip(arg["c"][0])
             if var["k"] == "DeclRefExpr":
                 consumers.append((F, n, var["name"]))
+    wid = list(callsites(prog, "waitid"))
+    if not consumers and len(wid) == 1:
+        return decode_rules_waitid(ctx, prog, *wid[0])
     if len(consumers) != 1:
         raise AnalysisBroken("C01.R5: expected exactly one waitpid call that collects the status word, found %d" % len(consumers))
     F, call, var = consumers[0]
@@ -80,6 +83,40 @@ def decode_rules(ctx, prog):
     ctx.ob("C01.R5o", "offset = 128", "the offset is 128 (the documented 128 + signal convention)", offs and offs[0] == 128, {"offset": offs})
 
 
+def decode_rules_waitid(ctx, prog, F, call):
+    """the tree reaps with waitid(): the decoder is evaluated for the three ways a child can end (CLD_EXITED, CLD_KILLED,
+    CLD_DUMPED) with a representative exit code / signal number each"""
+    from ..absint import State, Interp
+    from ..models import WAITID_SAMPLE
+    base = new_interp(prog)
+    want = {"exited": WAITID_SAMPLE["exited"], "killed": 128 + WAITID_SAMPLE["killed"], "dumped": 128 + WAITID_SAMPLE["dumped"]}
+    K = set(base.K) | set(WAITID_SAMPLE.values()) | set(want.values()) | {128}
+    I = new_interp(prog, K=K)
+    st = State()
+    st.mon["waitid_concrete"] = True
+    pid = ("pid", "handle", 0)
+    st.res[pid] = ("running",)
+    for p in F.params:
+        st.mem[("v", F.gdid(p["did"]))] = fs(pid)
+    res = I.run(F, [st])
+    ctx.stats("E-ABS", I.stats)
+    got = {}
+    for s, rv in res.exits:
+        k = s.mon.get("wait_kind")
+        if k:
+            got.setdefault(k, set()).add(show(rv))
+    for k in ("exited", "killed", "dumped"):
+        ctx.ob("C01.R5w", "%s: child %s%s" % (F.name, k, " (core written)" if k == "dumped" else ""),
+               "a child that exited with code c is reported as c, a child ended by signal s - with or without a core dump - as 128 + s "
+               "(evaluated for c = %d, s = %d / %d)" % (WAITID_SAMPLE["exited"], WAITID_SAMPLE["killed"], WAITID_SAMPLE["dumped"]),
+               got.get(k) == {show(fs(want[k]))}, {"returns": sorted(got.get(k, [])), "expected": want[k]}, nontrivial=True)
+    sigkill = [const_of(prog, n["c"][2]) for F2, n in callsites(prog, "kill") if F2.name == "process_kill"]
+    sigterm = [const_of(prog, n["c"][2]) for F2, n in callsites(prog, "kill") if F2.name == "process_terminate"]
+    ok = len(sigkill) == 1 and len(sigterm) == 1 and prog.const("REPROC_SIGKILL") == 128 + sigkill[0] and prog.const("REPROC_SIGTERM") == 128 + sigterm[0]
+    ctx.ob("C01.R5o", "signal offset", "the exported constants REPROC_SIGKILL / REPROC_SIGTERM equal 128 + the signals the library itself sends",
+           ok, {"SIGKILL": sigkill, "SIGTERM": sigterm})
+
+
 def wait_rules(ctx, prog):
     for f in ("reproc_wait", "reproc_stop"):
         res, F, I = R.run(ctx, prog, f)
@@ -115,7 +152,7 @@ def wait_rules(ctx, prog):
         ctx.ob("C01.R4d", f, "the child is never reaped twice", not dr, None, nontrivial=True)
         for e in R.ev_of(res, ("waitpid",)):
             kind, fn, node, info, st, stack = e[:6]
-            ctx.ob("C01.R2", site_of(fn, node) + " via " + f, "the reap blocks for termination only (options == 0: no WNOHANG / "
+            ctx.ob("C01.R2", site_of(fn, node) + " via " + f, "the reap blocks for termination only (waitpid options == 0 / waitid options == WEXITED: no WNOHANG / "
                    "WUNTRACED / WCONTINUED), so no status can be produced for a running or stopped child", info[1] == fs(0),
                    {"options": show(info[1])}, nontrivial=True)
     ctx.floor("C01.R3", 3)
@@ -134,9 +171,13 @@ def wait_rules(ctx, prog):
         ctx.ob("C01.R1", site_of(F2, n), "waitpid is called only to reap the handle's child (process_wait) or a child that failed to "
                "start (process_fork / process_start)", F2.name in ("process_wait", "process_fork", "process_start"), {"line": n["l"][0]})
         ctx.ob("C01.R2", site_of(F2, n), "options argument is the constant 0", const_of(prog, n["c"][3]) == 0, None)
-    for name in ("wait", "wait3", "wait4", "waitid"):
+    for name in ("wait", "wait3", "wait4"):
         for F2, n in callsites(prog, name):
             ctx.ob("C01.R1", site_of(F2, n), "no other reaping primitive is used", False, None)
+    for F2, n in callsites(prog, "waitid"):
+        ctx.ob("C01.R1", site_of(F2, n), "waitid is called only to reap the handle's child (process_wait) or a child that failed to "
+               "start, by pid", F2.name in ("process_wait", "process_fork", "process_start") and const_of(prog, n["c"][1]) == 1, {"line": n["l"][0]})
+        ctx.ob("C01.R2", site_of(F2, n), "options argument is exactly WEXITED", const_of(prog, n["c"][4]) == 4, None)
     ctx.floor("C01.R1", 3)
 
 
